@@ -106,6 +106,9 @@ func genStream(rng *prng.R, o streamOpts) []srcCmd {
 	}
 	val := func() []byte {
 		seq++
+		if seq%13 == 7 {
+			return []byte{} // an empty argument ($0): a value like any other, two bytes of payload frame
+		}
 		return []byte(fmt.Sprintf("v#%d", seq))
 	}
 	add := func(name string, args ...[]byte) {
